@@ -1,3 +1,8 @@
 // Kani harnesses mounted into crates/ripd/src/continuity_stream_cache.rs (cfg(kani) only).
 #![allow(unused_imports, dead_code)]
 use super::*;
+
+/// A cache handle for harnesses of `continuities.rs`; every query method they reach is stubbed, so `dir` is never used.
+pub fn kani_cache() -> ContinuityStreamCache {
+    ContinuityStreamCache { dir: PathBuf::new() }
+}
